@@ -110,7 +110,9 @@ class Scenario:
 
 def make_case(prop, st, op, before, after, res, fault, cls, outside_changed=None, sig=None):
     user = op[1] if len(op) > 1 else ""
-    tf = target_file(after, user) if res["result"] == "ok" else None
+    tf = target_file(after, user)
+    if res["result"] != "ok" and tf is not None and before.get(tf) == after.get(tf):
+        tf = None     # nothing was written: no time stamp / salt to hand to the model
     ts, salt, tab = 0, b"", []
     if tf and op[0] in ("add", "update", "init"):
         f = first_line_fields(after[tf])
@@ -173,7 +175,7 @@ BAD_NAMES = ["", "../other/eve", "x/../bob", "/etc/passwd", "-x", ".hidden", "_u
              "n" * 300, "ü"]
 
 
-def gen_cases(prop, seed, tier, want_faults=False, want_bad_names=False):
+def gen_cases(prop, seed, tier, want_faults=False, want_bad_names=False, fault_ops_filter=None):
     tl.build_storeop()
     rng = random.Random(seed)
     random.seed(seed)
@@ -220,6 +222,8 @@ def gen_cases(prop, seed, tier, want_faults=False, want_bad_names=False):
                          ("small", ("update", "carol", "pw2")), ("plain", ("update", "bob", "pw3")),
                          ("plain", ("setadmin", "alice", True)), ("plain", ("remove", "alice"))]
             errnos = tl.ERRNOS
+            if fault_ops_filter:
+                fault_ops = [fo for fo in fault_ops if fo[1][0] in fault_ops_filter]
             for k, op in fault_ops:
                 # calibration: which tracked calls does the operation make?
                 st, before, after, res, changed = traced(prop, scens[k], op, k)
@@ -237,17 +241,24 @@ def gen_cases(prop, seed, tier, want_faults=False, want_bad_names=False):
                     plan.append((idx, kind, j, loc))
                 for idx, kind, j, loc in plan:
                     es = errnos if tier == "thorough" else [errnos[(idx + len(op[1])) % 4], errnos[(idx + 1) % 4]]
+                    es = list(dict.fromkeys(es + tl.KIND_ERRNOS.get(kind, [])))
                     for e in es:
                         sysc = tl.KIND_SYSCALL[kind]
                         when = bc.get(sysc, 0) + j + 1
                         st, before, after, res2, changed = traced(prop, scens[k], op, k, inject=(sysc, e, when))
                         inj = [a for a in res2["accesses"] if a[3]]
                         if len(inj) != 1 or inj[0][0] != kind:
-                            # the fault did not land on the intended call (startup noise): skip this one
+                            # the fault did not land on a tracked call of this kind (startup noise): skip this one
                             st.cleanup()
                             continue
+                        # the number of runtime-internal calls before the operation varies a little between
+                        # processes: describe the fault by the call it actually hit
+                        same_kind = [a for a in res2["accesses"] if a[0] == kind]
+                        j_actual = [i for i, a in enumerate(same_kind) if a[3]][0]
+                        j = j_actual
                         sig = None
-                        if op[0] in ("update", "setadmin") and renamed_at is not None and idx > renamed_at and res2["result"] == "err":
+                        renamed = any(ev[0] == "ERename" and ev[2][0] == "file" for ev in res2["events"])
+                        if op[0] in ("update", "setadmin") and renamed and res2["result"] == "err":
                             sig = ("%s: an I/O error in the open/fsync of the base directory that follows the rename is reported as failure "
                                    "although the rename has already taken effect" % op[0])
                         cases.append(make_case(prop, st, op, before, after, res2, (kind, j, e),
